@@ -491,7 +491,7 @@ class Origins:
 
     @staticmethod
     def _const(op):
-        for key in ("static", "int", "bool", "char", "str", "bytes", "fn", "closure"):
+        for key in ("static", "enum_variant", "int", "bool", "char", "str", "bytes", "fn", "closure"):
             if key in op:
                 v = op[key]
                 if isinstance(v, list):
